@@ -168,3 +168,53 @@ func ZZC08Seed() {
 	zzReach("seed-ok")
 	zzWitness("end")
 }
+
+
+// ZZC08Repeat: repeating in one process reproduces everything byte for byte:
+// the same parsed program formatted twice gives the same text (and the text
+// of a fresh parse), and evaluated twice with fresh evaluators gives the same
+// output — formatting and evaluation leave the syntax tree as they found it.
+// Inputs: the layouts of the formatting corpus (multi-line literals with
+// comments and blank-line runs) and the determinism programs.
+func ZZC08Repeat() {
+	texts := append(append([]string{}, zzFmtCorpus...), zzC08Progs...)
+	texts = append(texts,
+		"m := {\n  a: 1\n\n\n\n  b: 2\n  c: 3\n}\nprint m\n",
+		"a := [\n  1\n\n\n\n  2 // two\n\n\n\n\n  3\n]\nprint a\n",
+		"func mk:{}num\n    return {a:1 b:2 c:3}\nend\nm := mk\ndel m \"a\"\nprint m (mk)\n",
+		"for i := range 2\n    m := {a:i b:2 c:3}\n    del m \"b\"\n    arr := [i [i]]\n    arr[1][0] = 9\n    print m arr\nend\n")
+	src := texts[zzChoice("text", len(texts))]
+	b := builtinsDeclsFromBuiltins(newBuiltins(&zzPlat{}))
+	prog, err := parser.Parse(src, b)
+	if err != nil {
+		zzReach("repeat-rejected")
+		_, err2 := parser.Parse(src, b)
+		zzAssert(err2 != nil && err2.Error() == err.Error(), "C08 repeat: parsing the same text again reports the same errors")
+		zzWitness("end-rejected")
+		return
+	}
+	f1 := prog.Format()
+	f2 := prog.Format()
+	prog2, _ := parser.Parse(src, b)
+	zzAssert(f1 == f2, "C08 repeat: formatting the same parsed program twice gives the same text")
+	zzAssert(prog2 != nil && prog2.Format() == f1, "C08 repeat: a fresh parse of the same text formats to the same text")
+	run := func() string {
+		p := &zzPlat{reads: []string{"in"}}
+		ev := NewEvaluator(p)
+		rerr := ev.Eval(prog)
+		out := p.out()
+		if rerr != nil {
+			out += "|" + rerr.Error()
+		}
+		return out
+	}
+	r1 := run()
+	r2 := run()
+	if r1 != r2 {
+		zzLog("C08 repeat: " + src + "first  " + r1 + "\nsecond " + r2)
+	}
+	zzAssert(r1 == r2, "C08 repeat: evaluating the same parsed program again gives the same output")
+	zzAssert(prog.Format() == f1, "C08 repeat: evaluation leaves the program's text unchanged")
+	zzReach("repeat-ok")
+	zzWitness("end")
+}
